@@ -538,6 +538,92 @@ theorem normalising_history_faithful (E : R → R → Prop) (hrefl : ∀ r, E r 
       · simp only [hsc, Bool.not_false, if_true, OutsFaithful]
         exact ⟨fun hh => (by rcases hh with hh | hh <;> cases hh), ih c h⟩
 
+/-! ## 6b. Interleaved `Get`s: the schema label of an entry is the schema its result was planned against -/
+
+/-- every entry's result is what `build` gives for the entry's OWN schema label and key -/
+def Labelled (build : S → Bytes → R) (c : Cache S R) : Prop := ∀ e ∈ c.items, e.res = build e.schema e.key
+
+/-- **store_keeps_labels** — `store` preserves the label invariant in BOTH branches: the fresh insert (with eviction) and
+the in-place refresh of an entry another `Get` wrote meanwhile (there the schema label is overwritten together with
+the result: plan_cache.go `item.e.schema = schema; item.e.result = pr`). -/
+theorem store_keeps_labels (build : S → Bytes → R) (c : Cache S R) (s : S) (k : Bytes) (h : Labelled build c) :
+    Labelled build (store c s k (build s k)) := by
+  intro e he
+  unfold store at he
+  cases hf : findKey k c.items with
+  | some e0 =>
+    simp only [hf, List.mem_cons] at he
+    rcases he with rfl | he
+    · rfl
+    · exact h e (mem_removeKey he)
+  | none =>
+    simp only [hf] at he
+    rcases List.mem_cons.mp (mem_evictLoop he) with rfl | he
+    · rfl
+    · exact h e he
+
+/-- `lookup` preserves the label invariant, and a HIT returns what `build` gives for the REQUEST's schema and key -/
+theorem lookup_keeps_labels (build : S → Bytes → R) (c : Cache S R) (s : S) (k : Bytes) (h : Labelled build c) :
+    Labelled build (lookup c s k).1 ∧ ∀ r, (lookup c s k).2 = some r → r = build s k := by
+  unfold lookup
+  cases hf : findKey k c.items with
+  | none => exact ⟨fun e he => h e he, fun r hr => by cases hr⟩
+  | some e0 =>
+    obtain ⟨hm, hk⟩ := findKey_some hf
+    by_cases hs : e0.schema = s
+    · simp only [hs, ne_eq, not_true_eq_false, if_false]
+      refine ⟨?_, fun r hr => ?_⟩
+      · intro e he
+        rcases List.mem_cons.mp he with rfl | he
+        · exact h _ hm
+        · exact h e (mem_removeKey he)
+      · simp only [Option.some.injEq] at hr
+        rw [← hr, h e0 hm, hs, hk]
+    · simp only [ne_eq, hs, not_false_eq_true, if_true]
+      exact ⟨fun e he => h e (mem_removeKey he), fun r hr => by cases hr⟩
+
+/-- what the outputs of an interleaving must satisfy: every `lookup s k` that HITS returned `build s k` -/
+def HitsOwn (build : S → Bytes → R) : List (Prim S) → List (Option (Option R)) → Prop
+  | [], [] => True
+  | .lookup s k :: ops, some out :: outs => (∀ r, out = some r → r = build s k) ∧ HitsOwn build ops outs
+  | .store _ _ :: ops, _ :: outs => HitsOwn build ops outs
+  | .reset :: ops, _ :: outs => HitsOwn build ops outs
+  | _, _ => False
+
+/-- **interleaved_transparent** — for EVERY interleaving of the `lookup` / `store` halves of `Get`s (and `Reset`s) over any
+number of schema pointers and keys — stores arriving in any order, for keys written meanwhile by other `Get`s, for other
+schema pointers (schema roll-over) — every HIT returns a result that was computed for the SAME (schema, key) as the
+request that hits. (`build s k` = what a `Get` for schema `s` whose request has cache key `k` computes: validate + plan;
+that the key determines the request is `rawKey_injective` / `KeyFaithful`.) -/
+theorem interleaved_transparent (build : S → Bytes → R) : ∀ (ops : List (Prim S)) (c : Cache S R), Labelled build c →
+    Labelled build (runPrim store build c ops).1 ∧ HitsOwn build ops (runPrim store build c ops).2 := by
+  intro ops
+  induction ops with
+  | nil => intro c h; exact ⟨h, trivial⟩
+  | cons o os ih =>
+    intro c h
+    cases o with
+    | lookup s k =>
+      obtain ⟨h1, h2⟩ := lookup_keeps_labels build c s k h
+      obtain ⟨h3, h4⟩ := ih (lookup c s k).1 h1
+      exact ⟨h3, h2, h4⟩
+    | store s k =>
+      obtain ⟨h3, h4⟩ := ih (store c s k (build s k)) (store_keeps_labels build c s k h)
+      exact ⟨h3, h4⟩
+    | reset =>
+      obtain ⟨h3, h4⟩ := ih (reset c) (fun e he => by simp [reset] at he)
+      exact ⟨h3, h4⟩
+
+/-- **store_without_relabel_breaks** — the `store` that refreshes the result of an existing entry but keeps its old schema
+label (seeded/C06-7) breaks it: `Get(B,k)` misses and is still planning; `Get(A,k)` misses, plans, stores; `Get(B,k)`
+stores in place → the entry is labelled A and holds B's plan; the next `Get(A,k)` is a HIT and returns B's plan.
+(Schemas A = 1, B = 2; `build s k = s`.) With the model's `store` the same interleaving ends in a miss. -/
+theorem store_without_relabel_breaks :
+    let ops : List (Prim Nat) := [.lookup 2 [7], .lookup 1 [7], .store 1 [7], .store 2 [7], .lookup 1 [7]]
+    (runPrim storeKeepLabel (fun s _ => s) (newPlanCache ⟨8, 0, false⟩) ops).2.getLast? = some (some (some 2)) ∧
+    (runPrim store (fun s _ => s) (newPlanCache ⟨8, 0, false⟩) ops).2.getLast? = some (some none) := by
+  decide +kernel
+
 /-! ## 7. What participates in the structural fingerprint (model of `fingerprintDocument`, after the repairs of D-06b/c/g) -/
 namespace Fp
 
@@ -929,22 +1015,23 @@ theorem Front.norm_ok {S : Type} (f : Front S) (s : S) (q op nk : PlanCache.Byte
 `notes/fixes/D-06k.diff` (`keyShapeRepaired`: `operationName + "\x00" + normKey`; `normKey` = `"raw:" + query` for
 requests normalisation does not apply to, `printedKey` = `"doc:"` + printed normalised document otherwise), equal cache
 keys imply documents equal up to source locations: no hash, no collision assumption, operation names are ARBITRARY byte
-strings. Premises: `f.parse` is the parser model on bytes (`hpb`: `parseBytes`, C03's lexer + parser models), its
-documents are printer-well-formed (`hp`: C03's output satisfies C08's `WFDocument`), `SchemaOK`. The `"\\x00"` separator
+strings. Premises: `hpb` — what `f.parse` accepts is what the parser model on bytes (`parseBytes`: C03's lexer + parser
+models) accepts WITH THE MALFORMED-TYPE FLAG DOWN (documents through the D-03b path of `parseType`, known finding
+typeRefMalformed of C03, stay outside, as they do for C08's round trip) — and `SchemaOK`. That such documents are
+printer-well-formed is C08's `parse_ok_WF`. The `"\\x00"` separator
 is sound because neither text that parses nor printed text contains a NUL byte — PROVED: `parseBytes_nz`
 (GqlProofs/NulFree.lean, from the lexer model) and `printed_nul_free` (from it and C08's `parse_print`). For the key as coded
 (`keyShapeCoded` + FNV fingerprint) the same statement is FALSE: D-06k (hash collision) and D-06l (the fingerprint does
 not see definitions the selected operation does not reach). -/
 theorem repaired_key_faithful {S : Type} (f : Front S)
     (hk : ∀ d op, f.keyOf d op = printedKey d)
-    (hp : ∀ q doc, f.parse q = some doc → Printer.WFDocument doc)
-    (hpb : ∀ q doc, f.parse q = some doc → ∃ bad, GqlModel.parseBytes q = .ok ⟨doc, bad⟩)
+    (hpb : ∀ q doc, f.parse q = some doc → GqlModel.parseBytes q = .ok ⟨doc, false⟩)
     (hs : ∀ s, SchemaOK (f.schemaOf s)) :
     PlanCache.KeyFaithful PlanCache.keyShapeRepaired SameShape f.norm f.buildN := by
-  have hq : ∀ q doc, f.parse q = some doc → ∀ b ∈ q, b ≠ 0 := by
-    intro q doc h
-    obtain ⟨bad, hb⟩ := hpb q doc h
-    exact GqlModel.parseBytes_nz q _ hb
+  have hp : ∀ q doc, f.parse q = some doc → Printer.WFDocument doc := fun q doc h =>
+    GqlModel.C08.parse_ok_WF q ⟨doc, false⟩ (hpb q doc h) rfl
+  have hq : ∀ q doc, f.parse q = some doc → ∀ b ∈ q, b ≠ 0 := fun q doc h =>
+    GqlModel.parseBytes_nz q _ (hpb q doc h)
   have hd : ∀ d, Printer.WFDocument d → ∀ b ∈ printedKey d, b ≠ 0 := printed_nul_free
   intro s q op q' op' nk sy nk' sy' hn hn' hkey
   simp only [PlanCache.normCacheKey, PlanCache.keyShapeRepaired] at hkey
@@ -1007,19 +1094,28 @@ theorem repaired_key_faithful {S : Type} (f : Front S)
       (normalize_keeps_wf _ (hs s) doc d _ sy (hp q doc hpa) hno)
       (normalize_keeps_wf _ (hs s) doc' d' _ sy' (hp q' doc' hpa') hno') hkk
 
+/-- **wf_document_lex.** A printer-well-formed document satisfies the lexical premise `DocLex` of `normalized_transparent`
+(field-argument values are `Reader.WFValue`) — so for documents the parser model accepts (flag down) `DocLex` is free. -/
+theorem wf_document_lex (doc : Document) (h : Printer.WFDocument doc) : DocLex doc := by
+  intro op name vars dirs sel loc hmem
+  have hd := wfDefinitions_mem doc.defs h.2 _ hmem
+  simp only [Printer.WFDefinition] at hd
+  exact lexSet_of_wf sel hd.2.2.2
+
 /-- **normalising_get_transparent_repaired** — `normalising_get_transparent` with the key assumption discharged:
-for the key construction of `notes/fixes/D-06k.diff` no hypothesis about hashes or collisions is left (premises of
-`repaired_key_faithful` and of `normalized_transparent`). -/
+for the key construction of `notes/fixes/D-06k.diff` no hypothesis about hashes or collisions is left. Premises: `hpb`
+(the front end's parse is the parser model with the malformed-type flag down — D-03b documents stay outside), `SchemaOK`,
+`customLti`, `ExecUniform` (from C02's acceptance: `Props/C06Accepted.lean`). `DocLex` and `WFDocument` are derived
+(`parse_ok_WF`, `wf_document_lex`). -/
 theorem normalising_get_transparent_repaired {S : Type} [DecidableEq S] (f : Front S)
     (hk : ∀ d op, f.keyOf d op = printedKey d)
-    (hp : ∀ q doc, f.parse q = some doc → Printer.WFDocument doc)
-    (hpb : ∀ q doc, f.parse q = some doc → ∃ bad, GqlModel.parseBytes q = .ok ⟨doc, bad⟩)
+    (hpb : ∀ q doc, f.parse q = some doc → GqlModel.parseBytes q = .ok ⟨doc, false⟩)
     (errRes : S → PlanCache.Bytes → PlanCache.Bytes → Document) (failed : Document → Bool)
     (c : PlanCache.Cache S Document) (s : S) (q op : PlanCache.Bytes)
     (h : PlanCache.InvE PlanCache.keyShapeRepaired SameShape f.norm f.buildN c)
     (doc docN : Document) (synth inputs : Vars) (w : Exec.World) (fuel : Nat)
     (hparse : f.parse q = some doc) (hnorm : normalizeDocument (f.schemaOf s) doc (f.opStr op) = .ok docN synth)
-    (hcc : customLti (f.schemaOf s)) (hsch : ∀ s, SchemaOK (f.schemaOf s)) (hlex : DocLex doc)
+    (hcc : customLti (f.schemaOf s)) (hsch : ∀ s, SchemaOK (f.schemaOf s))
     (hu : ExecUniform (f.schemaOf s) doc (f.opStr op) inputs w) :
     PlanCache.InvE PlanCache.keyShapeRepaired SameShape f.norm f.buildN
         (PlanCache.getNorm PlanCache.keyShapeRepaired f.norm errRes f.buildN failed c s q op).1 ∧
@@ -1028,8 +1124,9 @@ theorem normalising_get_transparent_repaired {S : Type} [DecidableEq S] (f : Fro
       Exec.execute (f.schemaOf s) (PlanCache.getNorm PlanCache.keyShapeRepaired f.norm errRes f.buildN failed c s q op).2.1.res
           (f.opStr op) (synth ++ inputs) w fuel =
         Exec.execute (f.schemaOf s) doc (f.opStr op) inputs w fuel) :=
-  normalising_get_transparent PlanCache.keyShapeRepaired f (repaired_key_faithful f hk hp hpb hsch) errRes failed c s q op h
-    doc docN synth inputs w fuel hparse hnorm hcc (hsch s) hlex hu
+  normalising_get_transparent PlanCache.keyShapeRepaired f (repaired_key_faithful f hk hpb hsch) errRes failed c s q op h
+    doc docN synth inputs w fuel hparse hnorm hcc (hsch s)
+    (wf_document_lex doc (GqlModel.C08.parse_ok_WF q ⟨doc, false⟩ (hpb q doc hparse) rfl)) hu
 
 /-! ## non-vacuity -/
 section Examples
